@@ -1067,7 +1067,10 @@ fn light_rewrite_comment(
             let first_non_whitespace = l.find(|c| !char::is_whitespace(c));
             let left_trimmed = if let Some(fnw) = first_non_whitespace {
                 if l.as_bytes()[fnw] == b'*' && fnw > 0 {
-                    &l[fnw - 1..]
+                    // Keep the one whitespace character in front of the `*`; it need not be a
+                    // single byte (e.g. U+3000 or a no-break space).
+                    let previous_char = l[..fnw].char_indices().next_back().map_or(fnw, |(i, _)| i);
+                    &l[previous_char..]
                 } else {
                     &l[fnw..]
                 }
